@@ -8,9 +8,10 @@
   * `tensor_cubic_partial_derivs`: the formal derivative used in the statement is the derivative.
   * `log_chain_rule`: the Bell-polynomial formula of the logarithmic variant, orders 1–3.
 
-  The nesting is `Cubic.nestedInterp`; the code's index/slice bookkeeping (`Cubic.interpCubic`, nodes
-  `1 … s−3` of every axis) is tied to the implementation by the differential runs, including the check
-  that exactly those function values are read.
+  The nesting is `nestedInterp`; that the code's index/slice bookkeeping (`Cubic.interpCubic`, nodes
+  `1 … s−3` of every axis) computes exactly this nesting is `InterpModel.interp_cubic_eq_nested`; the
+  model itself is tied to the implementation by the differential runs, including the check that exactly
+  those function values are read.
 -/
 import GridVerif.Lemmas.Cubic
 import Mathlib.Analysis.SpecialFunctions.ExpDeriv
